@@ -102,7 +102,8 @@ Proof.
 Qed.
 
 (* ---------------------------------------------------------------------------------------------- the loop *)
-Definition ops : string := "-+=*/^<>=!.%@[]():, "%string.
+(* the literal of the regenerated text; it follows the repair switch Replace.fixed_prime (the derivative mark ' joins the set) *)
+Definition ops : string := sla Replace.allowed_follow_ops.
 Lemma ops_sla : ops = sla Replace.allowed_follow_ops.
 Proof. reflexivity. Qed.
 Lemma eq_char : "="%string = sla ["="%char].
@@ -202,6 +203,7 @@ Theorem gen_replace_equiv (eq term rep : str) (rhs lhs : bool) :
 Proof.
   unfold Gen_replace.replace, replace_flags. rewrite py_find_sla, length_sla.
   pose proof (loop_equiv term rep rhs lhs (S (List.length eq)) [] None false eq) as H.
-  cbn [sla string_of_list_ascii encp] in H. fold ops.
+  cbn [sla string_of_list_ascii encp] in H.
+  match goal with |- context [replace_loop1 _ ?lit _ _ _ _ _] => change lit with ops end.
   destruct (replace_loop1 _ _ _ _ _ _ _) as [[[[[a b] c] d] e]|]; cbn [py_bind option_map fin] in *; exact H.
 Qed.
